@@ -211,6 +211,15 @@ fn try_use(ty: u32) -> Option<i64> {
 // ---------------------------------------------------------------------------------- interpreter
 
 thread_local! {
+    /// `@F` scenarios: `batch` and `untrack` are entered from inside the foreign root
+    static FOREIGN: Cell<Option<RootHandle>> = const { Cell::new(None) };
+}
+
+fn via_foreign() -> Option<RootHandle> {
+    FOREIGN.with(|f| f.get())
+}
+
+thread_local! {
     /// rotates through the equivalent forms of the signal API (get / with / get_clone, set / update / replace / set_fn, ...)
     static API_ROT: Cell<u32> = const { Cell::new(0) };
 }
@@ -480,16 +489,42 @@ fn exec1(env: &Env, s: &Stmt) -> Env {
         }
         Stmt::Batch(ss) => {
             log("batch 1".to_string());
-            batch(|| {
-                exec(env, ss);
-                log("batch 0".to_string());
-            });
+            match via_foreign() {
+                // `batch` is called while ANOTHER root is the current one (a handler of one app batching writes to signals of another):
+                // the body goes back to where it was through a handle of the current scope
+                Some(foreign) => {
+                    let cur = use_current_scope();
+                    foreign.run_in(|| {
+                        batch(|| {
+                            cur.run_in(|| {
+                                exec(env, ss);
+                                log("batch 0".to_string());
+                            })
+                        })
+                    })
+                }
+                None => batch(|| {
+                    exec(env, ss);
+                    log("batch 0".to_string());
+                }),
+            }
             env.clone()
         }
         Stmt::Untrack(ss) => {
-            untrack(|| {
-                with_spec_tracking(false, || exec(env, ss));
-            });
+            match via_foreign() {
+                // the same for `untrack`: what is read in its dynamic extent must not subscribe, whichever root is current when it starts
+                Some(foreign) => {
+                    let cur = use_current_scope();
+                    foreign.run_in(|| {
+                        untrack(|| {
+                            cur.run_in(|| with_spec_tracking(false, || exec(env, ss)));
+                        })
+                    })
+                }
+                None => untrack(|| {
+                    with_spec_tracking(false, || exec(env, ss));
+                }),
+            }
             env.clone()
         }
         Stmt::Component(ss) => {
@@ -650,6 +685,10 @@ fn classify(msg: &str, _file: &str) -> &'static str {
 }
 
 fn run_scenario(line: &str, out: &mut impl Write) {
+    let (line, via) = match line.strip_prefix("@F ") {
+        Some(rest) => (rest, true),
+        None => (line, false),
+    };
     let stmts = p_stmts(&sexpr::parse(line));
     LOG.with(|l| l.borrow_mut().clear());
     API_ROT.with(|c| c.set(0));
@@ -664,6 +703,7 @@ fn run_scenario(line: &str, out: &mut impl Write) {
             provide(ty, -777);
         }
     });
+    FOREIGN.with(|f| f.set(if via { Some(foreign) } else { None }));
     let root = create_root(|| {
         let h = use_global_scope();
         register(0, Bind::Handle(h));
